@@ -136,10 +136,30 @@ class Builder:
             except Exception:  # noqa: half-built trees may refuse lookups
                 pass
 
+    def plain_module(self, spec):
+        """an ordinary tasks module: no explicit namespace, just top-level Task objects (in definition
+        order); Collection.from_module collects them by introspection"""
+        import types
+        from invoke import Collection
+        mod = types.ModuleType(spec["name"])
+        mod.__doc__ = "COLL"
+        for i, it in enumerate(spec["items"]):
+            setattr(mod, "task_%d" % i, self.task(it["task"]))
+        cfg = spec.get("config", {})
+        kw = {"config": gt.unjson(cfg)} if cfg else {}
+        c = Collection.from_module(mod, auto_dash_names=spec.get("auto_dash", True), **kw)
+        self.built.append(c)
+        return c
+
     def coll(self, spec, attach=None):
         from invoke import Collection
         if "module" in spec:   # the root itself is a re-imported module
             return self.from_module(spec)
+        if spec.get("plain_module"):
+            c = self.plain_module(spec)
+            if attach is not None:
+                attach(c)
+            return c
         args = [spec["name"]] if spec.get("name") is not None else []
         c = Collection(*args, auto_dash_names=spec.get("auto_dash", True))
         c.__doc__ = "COLL"
@@ -253,9 +273,10 @@ def state(d):
 # --------------------------------------------------------------------------
 # generators
 # --------------------------------------------------------------------------
-TASK_NAMES = ["build", "clean", "my_task", "t", "deploy", "run_it", "x", "a_b_c", "_p", "q_", "do-it", "b"]
+TASK_NAMES = ["build", "clean", "my_task", "t", "deploy", "run_it", "x", "a_b_c", "_p", "q_", "do-it", "b",
+              "_cleanup_all"]
 ALIASES = ["bld", "c", "mt", "alias_one", "go", "z", "d-p", "al"]
-COLL_NAMES = ["sub", "docs", "my_mod", "inner", "deep", "s2", "lib-x", "m"]
+COLL_NAMES = ["sub", "docs", "my_mod", "inner", "deep", "s2", "lib-x", "m", "class_", "_priv"]
 
 # settings schema: which paths are sections (keeps most generated configs type-consistent)
 SCHEMA = {"run": {"echo": None, "shell": None, "env": {"A": None, "B": None}},
@@ -370,6 +391,8 @@ def gen_coll(rng, depth, ids, name=None, clean=True, p_break=0.0, width=3, p_def
                              p_subdefault, None if rng.random() < 0.5 else ad, share, p_extra, p_rename, p_mod)
             if rng.random() < p_mod and child["items"] and cname is not None:
                 child = wrap_module(rng, child)
+            elif rng.random() < p_mod and "module" not in child and plain_module_ok(child):
+                child = as_plain_module(child)
             d = False
             if (not has_default or not clean and rng.random() < 0.1) and rng.random() < p_subdefault:
                 d = True
@@ -378,7 +401,21 @@ def gen_coll(rng, depth, ids, name=None, clean=True, p_break=0.0, width=3, p_def
     return spec
 
 
-MOD_NAMES = ["tasks", "my_tasks", "mod-x", "pkg"]
+MOD_NAMES = ["tasks", "my_tasks", "mod-x", "pkg", "class_", "_tasks"]
+
+
+def plain_module_ok(spec):
+    """a collection a plain tasks module can express: named, tasks only, bound by their own names"""
+    return (spec.get("name") is not None and spec.get("items") and "config_parts" not in spec and
+            all("task" in it and it.get("bind") is None and not it.get("aliases") and it.get("default") in (None, False)
+                for it in spec["items"]) and
+            len(set(it["task"]["id"] for it in spec["items"])) == len(spec["items"]))
+
+
+def as_plain_module(spec):
+    """the same collection, written as an ordinary module (defaults move onto the tasks)"""
+    items = [dict(it, default=None) for it in spec["items"]]
+    return dict(spec, items=items, plain_module=True)
 
 
 def wrap_module(rng, spec):
